@@ -23,6 +23,10 @@ struct TypeM {
     refs: Vec<(usize, &'static str)>,
     /// a second type of the same name lives in another crate (import clause only)
     dup: bool,
+    /// `struct Name<T> { .., payload: T }`: every reference to it carries one type argument
+    generic: bool,
+    /// (index of the ref to a generic type, index of the ref written as its type argument)
+    nest: Vec<(usize, usize)>,
 }
 
 #[derive(Clone, Debug)]
@@ -67,7 +71,8 @@ fn gen_ws(rng: &mut Rng) -> Ws {
             let st = stems.fresh(rng);
             let name = format!("{}{}", cap(&st), ["", "Item", "Info"][rng.below(3)]);
             let renamed = if rng.chance(1, 6) { Some(format!("{}Rn", cap(&st))) } else { None };
-            types.push(TypeM { stem: st, name, renamed, krate: *c, file: fi, refs: vec![], dup: false });
+            let generic = rng.chance(1, 5);
+            types.push(TypeM { stem: st, name, renamed, krate: *c, file: fi, refs: vec![], dup: false, generic, nest: vec![] });
         }
     }
     // references: to earlier types only (acyclic), across files and crates
@@ -88,6 +93,25 @@ fn gen_ws(rng: &mut Rng) -> Ws {
                 *rng.pick(&FORMS[..6])
             };
             types[i].refs.push((t, form));
+            // a generic target takes a type argument: often another (earlier, non-generic) type, written in a form of its own
+            if types[t].generic && rng.chance(2, 3) {
+                let cands: Vec<usize> = (0..i).filter(|j| !types[*j].generic && *j != t && !types[i].refs.iter().any(|(x, _)| x == j)).collect();
+                if !cands.is_empty() {
+                    let j = *rng.pick(&cands);
+                    let jform = if types[j].krate == types[i].krate {
+                        if types[j].file == types[i].file {
+                            "same-file"
+                        } else {
+                            *rng.pick(&["crate-path", "super-path", "self-use", "self-path", "use-crate"])
+                        }
+                    } else {
+                        *rng.pick(&FORMS[..6])
+                    };
+                    let outer = types[i].refs.len() - 1;
+                    types[i].refs.push((j, jform));
+                    types[i].nest.push((outer, outer + 1));
+                }
+            }
         }
     }
     // same-named type in another crate: only the import clause is concerned by it
@@ -121,7 +145,11 @@ fn render_ws(ws: &Ws) -> Vec<SrcFile> {
         let mut body = String::new();
         for t in ws.types.iter().filter(|t| t.file == fi) {
             let ren = t.renamed.as_ref().map(|r| format!("#[serde(rename = \"{r}\")]\n")).unwrap_or_default();
-            body.push_str(&format!("#[typeshare]\n{ren}pub struct {} {{\n    pub own: u32,\n", t.name));
+            body.push_str(&format!("#[typeshare]\n{ren}pub struct {}{} {{\n    pub own: u32,\n", t.name, if t.generic { "<T>" } else { "" }));
+            if t.generic {
+                body.push_str("    pub payload: T,\n");
+            }
+            let mut spelled: Vec<String> = vec![];
             for (k, (ti, form)) in t.refs.iter().enumerate() {
                 let target = &ws.types[*ti];
                 let tc = crate_ident(&ws.crates[target.krate]);
@@ -157,10 +185,23 @@ fn render_ws(ws: &Ws) -> Vec<SrcFile> {
                     "qualified" => format!("{tc}::{}", target.name),
                     _ => format!("{tc}::models::deep::{}", target.name),
                 };
-                let wrapped = match k % 3 {
+                spelled.push(ty);
+            }
+            for (k, (ti, _)) in t.refs.iter().enumerate() {
+                if t.nest.iter().any(|(_, inner)| *inner == k) {
+                    continue; // written inside its outer reference
+                }
+                let mut ty = spelled[k].clone();
+                if ws.types[*ti].generic {
+                    let arg = t.nest.iter().find(|(outer, _)| *outer == k).map(|(_, inner)| spelled[*inner].clone()).unwrap_or_else(|| "u32".to_string());
+                    ty = format!("{ty}<{arg}>");
+                }
+                let wrapped = match k % 5 {
                     0 => ty,
                     1 => format!("Vec<{ty}>"),
-                    _ => format!("Option<{ty}>"),
+                    2 => format!("Option<{ty}>"),
+                    3 => format!("HashMap<String, {ty}>"),
+                    _ => format!("Box<[{ty}; 2]>"),
                 };
                 body.push_str(&format!("    pub r{k}: {wrapped},\n"));
             }
@@ -392,8 +433,15 @@ pub fn run(ctx: &Ctx) -> (Spec, Report) {
                 }
                 // every cross-crate reference must be imported from exactly its defining file
                 for t in r.ws.types.iter().filter(|t| t.krate == c) {
-                    for (ti, form) in &t.refs {
+                    for (rk, (ti, form)) in t.refs.iter().enumerate() {
                         let target = &r.ws.types[*ti];
+                        // a reference written as the type argument of another (generic) reference: `outer::Page<inner::Item>`
+                        let nested_in: Option<&str> = t.nest.iter().find(|(_, inner)| *inner == rk).map(|(outer, _)| t.refs[*outer].1);
+                        let form_owned = match nested_in {
+                            Some(o) => format!("{form}|argument-of={o}"),
+                            None => form.to_string(),
+                        };
+                        let form = &form_owned.as_str();
                         if target.krate == c {
                             // same crate: no import may exist for it
                             let local_name = format!("{}{}", r.cfg.prefix, target.renamed.clone().unwrap_or(target.name.clone()));
@@ -433,7 +481,7 @@ pub fn run(ctx: &Ctx) -> (Spec, Report) {
     }
     let spec = Spec {
         level: "exploration",
-        rule: format!("{n} generated workspaces of 1-5 crates (names with dashes and underscores), 1-3 files per crate at depth 1-4 under src, 1-3 types per file, references to earlier types in the same file, the same crate (crate:: / super:: / use self:: / use crate::) and other crates (use single / grouped / nested / glob, qualified and deep qualified paths), a sixth of the types serde-renamed, optional prefix and a foreign type mapping; real binary with --output-folder and, as twin, --output-file; TypeScript, Kotlin, Swift, Python (Scala and Go have no multi-file support); oracle: file set and names from the crate rule, every type in exactly its crate's file, union of definitions equals the single-file run, TS/Kotlin imports resolve to the defining file and name only defined types; distinct = (language, crate count, prefix?) and (language, reference form, renamed?)"),
+        rule: format!("{n} generated workspaces of 1-5 crates (names with dashes and underscores), 1-3 files per crate at depth 1-4 under src, 1-3 types per file, references to earlier types in the same file, the same crate (crate:: / super:: / use self:: / use crate::) and other crates (use single / grouped / nested / glob, qualified and deep qualified paths), a fifth of the types generic and referred to with a type argument that is itself a reference in any of those forms (`other::Page<third::models::deep::Item>`), wrapped in nothing / Vec / Option / HashMap / Box<[..; 2]>, a sixth of the types serde-renamed, optional prefix and a foreign type mapping; real binary with --output-folder and, as twin, --output-file; TypeScript, Kotlin, Swift, Python (Scala and Go have no multi-file support); oracle: file set and names from the crate rule, every type in exactly its crate's file, union of definitions equals the single-file run, TS/Kotlin imports resolve to the defining file and name only defined types; distinct = (language, crate count, prefix?) and (language, reference form, renamed?)"),
         assumptions: vec![
             "`use .. as ..` renames are outside the stated domain and not generated".into(),
             "extra imports (a glob brings in every type of the crate) are allowed as long as the module defines them".into(),
